@@ -109,7 +109,8 @@ def proj_c10(pickles):
 
 
 def proj_ids(pickles):
-    return [([s.get("id") for s in p.get("steps", [])], p.get("id")) for p in pickles]
+    """which id went to which pickle / pickle step, named by the AST nodes they were made from (canonical order = document order)"""
+    return [([(s.get("id"), s.get("astNodeIds")) for s in p.get("steps", [])], p.get("id"), p.get("astNodeIds"), [t.get("astNodeId") for t in p.get("tags", [])]) for p in pickles]
 
 
 def all_scenarios(doc):
